@@ -259,7 +259,7 @@ var errorFormat = map[Code]string{
 	ErrUnacceptableRecursionInAllOfRule: "The unacceptable recursion in the `allOf` rule",
 	ErrUnacceptableUserTypeInAllOfRule:  `Unacceptable type. The "%s" type in the "allOf" rule must be an object`,
 	ErrConflictAdditionalProperties:     `Conflicting value in additionalProperties rules when inheriting from allOf`,
-	ErrLoadError:                        "load error: %w",
+	ErrLoadError:                        "load error: %s",
 
 	// rule loader
 	ErrLoader:                           "Loader error", // error somewhere in the loader code
@@ -340,7 +340,7 @@ var errorFormat = map[Code]string{
 	ErrIncorrectExponentValue:   "Incorrect exponent value",
 
 	// example & ast
-	ErrRegexExample:          "generate example for Regex type: %w",
+	ErrRegexExample:          "generate example for Regex type: %s",
 	ErrCantCollectRulesTypes: `Can't collect rules: "types" constraint is required with "or" constraint. Learn more about the "or" rule here: https://jsight.io/docs/jsight-schema-0-3#rule-or`,
 
 	// tests
